@@ -2880,13 +2880,13 @@ def mpf2multiword(dtype, x, p=None, max_length=None):
         p = tp
     if p > tp:
         raise ValueError(f"specified precision ({p}) exceeds the precision of {dtype.__name__} ({tp})")
+    if man == 0 or (max_length is not None and max_length == 1):
+        # zero, infinity, nan, or a single word requested
+        return [mpf2float(dtype, x)]
     bl = man.bit_length()
     mask = (1 << min(bl, p)) - 1
     result = []
     offset = max(bl - p, 0)
-    if max_length is not None and max_length == 1:
-        result.append(mpf2float(dtype, x))
-        offset = 0
     while True:
         man1 = (man & (mask << offset)) >> offset
         bl1 = man1.bit_length()
